@@ -119,6 +119,7 @@ def run_cases(cases, variant="plain", binary=None, cpu_s=None, as_bytes=None,
                     timed_out = True
             started = None
             hook = None
+            cur_step = None
             done_ids = set()
             finished = False
             if os.path.exists(out):
@@ -131,6 +132,9 @@ def run_cases(cases, variant="plain", binary=None, cpu_s=None, as_bytes=None,
                         if "start" in v:
                             started = v["start"]
                             hook = None
+                            cur_step = None
+                        elif "step" in v:
+                            cur_step = v["step"]
                         elif "panic_hook" in v:
                             hook = v["panic_hook"]
                         elif "finished" in v:
@@ -154,6 +158,8 @@ def run_cases(cases, variant="plain", binary=None, cpu_s=None, as_bytes=None,
                 break
             if started is not None:
                 died = {"stderr_tail": tail, "stderr_head": head, "first_repo_frame": first_repo_frame}
+                if cur_step is not None:
+                    died["step"] = cur_step      # cases with "journal_steps": true
                 if timed_out:
                     died["watchdog"] = True
                 elif rc is not None and rc < 0:
